@@ -656,6 +656,10 @@ func (s *vSim) cleanup() {
 	}
 }
 
+// vExtraOps lets other harness files add scenario operations (op name ->
+// handler running inside the bubble; use s.record to emit a result).
+var vExtraOps = map[string]func(s *vSim, id string, c map[string]any){}
+
 // runScenario executes the steps inside a synctest bubble and returns results + events.
 func vRunScenario(t *testing.T, sc map[string]any) map[string]any {
 	dir := t.TempDir()
@@ -734,6 +738,10 @@ func vRunScenario(t *testing.T, sc map[string]any) map[string]any {
 					s.mu.Unlock()
 				}
 			default: // commands
+				if fn, ok := vExtraOps[op]; ok {
+					fn(s, id, c)
+					continue
+				}
 				s.mu.Lock()
 				s.events = append(s.events, vEvent{Seq: len(s.events), T: s.now(), G: id, Kind: "issue", Args: []any{id, op, vHexOrEmpty(c["name"])}})
 				s.mu.Unlock()
